@@ -460,7 +460,9 @@ def configs(tier):
             out.append(dict(scen="blocking", rate_in=ri, rate_out=ro, skip=skip, nticks=3 if not th else 5))
     for nq, k in ([(3, 2), (1, 2), (2, 0)] if not th else [(3, 2), (1, 2), (2, 0), (4, 4), (4, 1), (0, 0)]):
         out.append(dict(scen="ts_max", nq=nq, k=k))
-    for nq, k, W in ([(3, 2, 1), (3, 3, 2), (1, 2, 1), (2, 0, 2)] if not th else [(3, 2, 1), (3, 3, 2), (1, 2, 1), (2, 0, 2), (4, 4, 3), (4, 3, 1)]):
+    # (nq, k, W): also groups smaller than the window (k < W < 2k, k < W/2) -- the step is then handed all k of them
+    for nq, k, W in ([(3, 2, 1), (3, 3, 2), (1, 2, 1), (2, 0, 2), (3, 2, 3), (4, 3, 4), (3, 1, 3), (4, 3, 5)] if not th else
+                     [(3, 2, 1), (3, 3, 2), (1, 2, 1), (2, 0, 2), (4, 4, 3), (4, 3, 1), (3, 2, 3), (4, 3, 4), (3, 1, 3), (4, 3, 5), (5, 4, 5), (5, 4, 7), (2, 2, 5)]):
         for b in (False, True):
             out.append(dict(scen="selection", nq=nq, k=k, window=W, blocking=b))
     out += [dict(scen="selection", nq=3, k=3, window=2, blocking=False, max_records=1), dict(scen="selection", nq=3, k=2, window=1, blocking=True, max_records=2, prerecorded=2)]
